@@ -8,15 +8,15 @@
 
    Guards are the exact complements of the refuted classes; each refuted class has its `_refuted` witness
    (known_findings.tsv: squeeze-singleton, Image2D.fun2par|batch, StepExpansion float boundaries). *)
-From CV Require Import Base.Tac Base.Cmp Base.LinAlg Base.QcLin Model.C13_Geom Model.C13_Float
-     Proofs.C13_Lists Proofs.C13_Index Proofs.C13_Geom Proofs.C13_Step Proofs.C13_StepQ Proofs.C13_All Proofs.C13_FloatW Proofs.C13_Vector Proofs.C13_KLW.
+From CV Require Import Base.Tac Base.Cmp Base.LinAlg Base.QcLin Model.C13_Geom Model.C13_Float Model.C13_Eq
+     Proofs.C13_Lists Proofs.C13_Index Proofs.C13_Geom Proofs.C13_Step Proofs.C13_StepQ Proofs.C13_All Proofs.C13_FloatW Proofs.C13_Vector Proofs.C13_KLW Proofs.C13_Fun2par Proofs.C13_Eq.
 From Coq Require Import QArith Qcanon.
 From Coq Require PrimFloat.   (* not imported: Print Assumptions then shows the primitives with their full names *)
 
 (* ============ round trips fun2par(par2fun(p)) = p ============ *)
 
 (* every geometry of the model (Continuous1D, Discrete, defaults, Continuous2D, Image2D C/F/visual_only,
-   MappedGeometry with inverse (nested too), KLExpansion with any number m >= 2 of modes, StepExpansion on any
+   MappedGeometry with ANY elementwise map/imap pair such that imap (map x) = x (nested too), KLExpansion with any number m >= 2 of modes, StepExpansion on any
    index family that is a partition into non-empty steps), every size, a single parameter vector (k = 1) and,
    for the geometries whose two maps are column-wise, every batch of k columns *)
 Theorem C13_roundtrip : forall (g : geom) (k : nat) (a : arr Qc),
@@ -25,6 +25,22 @@ Theorem C13_roundtrip : forall (g : geom) (k : nat) (a : arr Qc),
   obind (g_par2fun g a) (g_fun2par g) = Some a.
 Proof. exact g_roundtrip. Qed.
 Print Assumptions C13_roundtrip.
+
+(* MappedGeometry, one layer over any geometry, ANY pair of functions that is inverse on the function values that
+   actually occur (rational maps are inverse only away from their pole) *)
+Theorem C13_roundtrip_mapped_pointwise : forall (g : geom) (fm f' : Qc -> Qc) (a b : arr Qc),
+  g_par2fun g a = Some b -> Forall (fun v => f' (fm v) = v) (dat b) -> g_fun2par g b = Some a ->
+  obind (g_par2fun (GMapped g fm (Some f')) a) (g_fun2par (GMapped g fm (Some f'))) = Some a.
+Proof. exact mapped_roundtrip_pointwise. Qed.
+Print Assumptions C13_roundtrip_mapped_pointwise.
+
+(* the instances run by the harness: affine maps with non-zero slope (everywhere), Moebius maps (away from the pole) *)
+Theorem C13_mapped_instances :
+  (forall ma mb x : Qc, ma <> 0%Qc -> ((ma * x + mb - mb) / ma)%Qc = x) /\
+  (forall a b c d x : Qc, (a * d - b * c)%Qc <> 0%Qc -> (c * x + d)%Qc <> 0%Qc ->
+     let y := ((a * x + b) / (c * x + d))%Qc in ((d * y - b) / (- c * y + a))%Qc = x).
+Proof. split; [exact affine_inverse | exact moebius_inverse]. Qed.
+Print Assumptions C13_mapped_instances.
 
 (* Continuous2D, any element type, any grid sizes except the single point, vectors and batches *)
 Theorem C13_roundtrip_continuous2d : forall (A : Type) (d : A) (n1 n2 k : nat) (a : arr A),
@@ -192,6 +208,32 @@ Theorem C13_batch_columnwise_step : forall (N : nat) (idx : list (list nat)) (k 
 Proof. exact step_par2fun_columnwise. Qed.
 Print Assumptions C13_batch_columnwise_step.
 
+(* fun2par on batches of ARBITRARY function values, column by column *)
+Theorem C13_batch_columnwise_kl_fun2par : forall (dst : list Qc -> list Qc) (N m : nat) (coefs : list Qc) (tau : Qc) (k : nat) (a : arr Qc),
+  (forall x, length x = N -> length (dst x) = N) -> length coefs = m -> (2 <= m)%nat -> (m <= N)%nat -> (k <> 1)%nat ->
+  shp a = [N; k] ->
+  exists b, kl_fun2par dst N m coefs tau a = Some b /\ shp b = [m; k] /\ length (dat b) = (m * k)%nat /\
+    forall j, (j < k)%nat ->
+      kl_fun2par dst N m coefs tau (mkArr [N] (col_of 0%Qc N k j (dat a))) = Some (mkArr [m] (col_of 0%Qc m k j (dat b))).
+Proof. exact kl_fun2par_columnwise. Qed.
+Print Assumptions C13_batch_columnwise_kl_fun2par.
+
+Theorem C13_batch_columnwise_step_fun2par : forall (N : nat) (idx : list (list nat)) (pr : proj) (k : nat) (a : arr Qc),
+  Forall (fun ids => ids <> []) idx -> (length idx <> 1)%nat -> (k <> 1)%nat -> shp a = [N; k] ->
+  exists b, step_fun2par_total N idx pr a = Some b /\ shp b = [length idx; k] /\ length (dat b) = (length idx * k)%nat /\
+    forall j, (j < k)%nat ->
+      step_fun2par_total N idx pr (mkArr [N] (col_of 0%Qc N k j (dat a))) = Some (mkArr [length idx] (col_of 0%Qc (length idx) k j (dat b))).
+Proof. exact step_fun2par_columnwise. Qed.
+Print Assumptions C13_batch_columnwise_step_fun2par.
+
+(* documented projection: parameter i = mean / max / min of the function values at the nodes of step i *)
+Theorem C13_placement_step_fun2par : forall (N : nat) (idx : list (list nat)) (pr : proj) (f : list Qc) (i : nat),
+  Forall (fun ids => ids <> []) idx -> (length idx <> 1)%nat -> length f = N -> (i < length idx)%nat ->
+  exists p, step_fun2par_total N idx pr (mkArr [N] f) = Some (mkArr [length idx] p) /\
+            nth i p 0%Qc = proj_val pr (map (fun t => nth t f 0%Qc) (nth i idx [])).
+Proof. exact step_fun2par_value. Qed.
+Print Assumptions C13_placement_step_fun2par.
+
 (* ============ reported shapes ============ *)
 (* par2fun of an array of the reported par_shape succeeds and has the reported fun_shape (declared, or for
    MappedGeometry inferred from par2fun(ones)); par_dim = prod par_shape by definition of the model *)
@@ -203,6 +245,13 @@ Proof.
   intros g a H1 H2 H3. split; [exact (g_par_shape_1d g)|]. split; [exact (g_fun_shape_eq g H1) | exact (g_par2fun_shape g a H1 H2 H3)].
 Qed.
 Print Assumptions C13_shapes.
+
+(* fun2par of ANY array of the reported fun_shape succeeds and has the reported par_shape / par_dim *)
+Theorem C13_shapes_fun2par : forall (g : geom) (f : arr Qc),
+  g_inv_ok g -> shp f = fshape g -> length (dat f) = prodn (fshape g) ->
+  exists p, g_fun2par g f = Some p /\ shp p = g_par_shape g /\ length (dat p) = g_par_dim g.
+Proof. exact g_fun2par_shape. Qed.
+Print Assumptions C13_shapes_fun2par.
 
 Theorem C13_shapes_refuted : exists n1 n2 (a b : arr nat),
   shp a = [(n1 * n2)%nat] /\ length (dat a) = (n1 * n2)%nat /\
@@ -256,6 +305,22 @@ Theorem C13_step_partition_float_refuted : exists (a b : PrimFloat.float) (N n :
 Proof. exact step_partition_float_refuted. Qed.
 Print Assumptions C13_step_partition_float_refuted.
 
+(* WHEN binary64 gives the exact partition (bounded exhaustive; the bounds are part of the statements):
+   (a) the same loop run on the node NUMBERS 0.0 .. N-1.0 (fixes/C13_step_partition_minimal.diff): always *)
+Theorem C13_step_float_nodes_exact_bounded : forall N n, (2 <= N <= 40)%nat -> (1 <= n <= N)%nat ->
+  step_indices_nodes N n = step_indices_ideal N n.
+Proof. exact step_nodes_float_exact_bounded. Qed.
+Print Assumptions C13_step_float_nodes_exact_bounded.
+
+(* (b) today's loop on node COORDINATES, whenever the coordinates x0 + k*h are themselves exact in binary64: the 36
+   offset/spacing pairs of dyadic_family, every n_steps (dividing N-1 or not); the failures above need rounded
+   coordinates such as those of np.linspace *)
+Theorem C13_step_float_dyadic_exact_bounded : forall x0 h N n, In (x0, h) dyadic_family ->
+  (2 <= N <= 20)%nat -> (1 <= n <= N)%nat ->
+  step_indices_F (fgrid x0 h N) n = step_indices_ideal N n.
+Proof. exact step_float_exact_on_dyadic_grids_bounded. Qed.
+Print Assumptions C13_step_float_dyadic_exact_bounded.
+
 (* binary64: 11 nodes on [1e-3,1e3], 11 steps -> the last node lies in no step *)
 Theorem C13_step_cover_float_refuted : exists (a b : PrimFloat.float) (N n : nat),
   (2 <= N)%nat /\ (1 <= n)%nat /\ (n <= N)%nat /\
@@ -297,19 +362,53 @@ Theorem C13_cuqiarray_lossless : forall (g : geom) (a : arr Qc),
 Proof. exact cuqiarray_lossless. Qed.
 Print Assumptions C13_cuqiarray_lossless.
 
+(* ============ Geometry.__eq__ (model of _all_values_equal over attribute dictionaries, Model/C13_Eq.v) ============ *)
+(* with array_equal (fixes/C13_eq_array_equal.diff): geometries that compare equal have, attribute by attribute, values
+   that compare equal, and array attributes (grids) of the same length and entries *)
+Theorem C13_eq_sound : forall strict self obj, all_values_equal strict self obj = true ->
+  forall k v, In (k, v) self -> exists w, lookup k obj = Some w /\ pval_eqv strict v w = true.
+Proof. exact all_values_equal_sound. Qed.
+Print Assumptions C13_eq_sound.
+
+Theorem C13_eq_strict_grids : forall isinst self obj k l, geom_eq true isinst self obj = true -> In (k, PS (SArr l)) self ->
+  forall l', lookup k obj = Some (PS (SArr l')) -> l' = l.
+Proof. exact geom_eq_strict_grids. Qed.
+Print Assumptions C13_eq_strict_grids.
+
+Theorem C13_eq_refl : forall strict d, NoDup (map fst d) -> geom_eq strict true d d = true.
+Proof. exact geom_eq_refl. Qed.
+Print Assumptions C13_eq_refl.
+
+(* today (array_equiv broadcasts): a one-node grid equals a three-node grid *)
+Theorem C13_eq_broadcast_refuted : exists self obj l l', In (0%nat, PS (SArr l)) self /\ lookup 0%nat obj = Some (PS (SArr l')) /\
+  length l <> length l' /\ geom_eq false true self obj = true /\ geom_eq true true self obj = false.
+Proof. exact geom_eq_broadcast_refuted. Qed.
+Print Assumptions C13_eq_broadcast_refuted.
+
+(* a lazily filled cache attribute (KLExpansion._coefs: None until the maps are used) makes identical objects unequal *)
+Theorem C13_eq_cache_refuted : exists d c, NoDup (map fst ((7%nat, PS SNone) :: d)) /\
+  geom_eq true true ((7%nat, PS SNone) :: d) ((7%nat, PS (SArr c)) :: d) = false /\
+  geom_eq false true ((7%nat, PS (SArr c)) :: d) ((7%nat, PS SNone) :: d) = false.
+Proof. exact geom_eq_cache_refuted. Qed.
+Print Assumptions C13_eq_cache_refuted.
+
 (* non-vacuity: a nested mapped Continuous2D, an Image2D in Fortran order and a StepExpansion on the bit-exact
    binary64 indices of linspace(0,1,7) with 3 steps satisfy the guards; the last one's indices pass the test *)
 Example C13_example :
-  g_ok (GMapped (GMapped (GCont2D 2 3) (qc (2 # 1)) (qc (1 # 1)) true) (qc (-1 # 2)) (qc (1 # 4)) true) /\
+  g_ok (GMapped (GMapped (GCont2D 2 3) (fun x => qc (2 # 1) * x + qc (1 # 1))%Qc (Some (fun y => (y - qc (1 # 1)) / qc (2 # 1))%Qc))
+                (fun x => qc (-1 # 2) * x)%Qc (Some (fun y => y / qc (-1 # 2))%Qc)) /\
   g_ok (GImage 2 3 OF false) /\ g_shape_ok (GImage 2 3 OF false) /\
-  g_ok (GStep 7 (step_indices_F grid01_7 3) PMax) /\
+  g_ok (GStep 7 (step_indices_F grid01_7 3) PMax) /\ g_inv_ok (GStep 7 (step_indices_F grid01_7 3) PMax) /\
   g_par2fun (GImage 2 3 OF false) (mkArr [6%nat] (map qcn [0; 1; 2; 3; 4; 5]%nat))
     = Some (mkArr [2; 3]%nat (map qcn [0; 2; 4; 1; 3; 5]%nat)).
 Proof.
-  split; [|split; [|split; [|split]]].
-  - cbn [g_ok]. repeat split; try lia; intros E; apply Q2Qc_eq_iff in E; discriminate E.
+  split; [|split; [|split; [|split; [|split]]]].
+  - cbn [g_ok]. split; [|split; [|lia]].
+    + eexists. split; [reflexivity|]. intros x. cbv beta. field. intros E; apply Q2Qc_eq_iff in E; discriminate E.
+    + eexists. split; [reflexivity|]. intros x. cbv beta. apply affine_inverse. intros E; apply Q2Qc_eq_iff in E; discriminate E.
   - cbn; lia.
   - cbn; lia.
   - cbn [g_ok]. split; [apply step_wf_b_sound; vm_compute; reflexivity|]. split; [lia|]. vm_compute. lia.
+  - cbn [g_inv_ok]. split; [vm_compute; repeat constructor; discriminate | vm_compute; lia].
   - vm_compute. reflexivity.
 Qed.
